@@ -104,8 +104,9 @@ class World:
         b.attrs['tracked'] = True
         b.attrs['_modified'] = False
         attrs = {'domain': self.mesh, '_value': b, 'BCsTerm_precalc': False}
-        if bcs is not None:
-            attrs['BCs'] = bcs
+        if bcs is None:
+            bcs = self.interp.call_function(self.sm.func('boundary', 'BoundaryConditions'), [self.mesh])
+        attrs['BCs'] = bcs
         return AObj('CellVariable', attrs)
 
     def boundary_conditions(self, periodic=(), name='bc', kinds=None):
@@ -162,7 +163,8 @@ class World:
 
     # -- reading sparse matrices and vectors row-wise -------------------------------------------
     def _solve_row(self, rows: Arr, P):
-        """find the index into segment `rows` whose tagged cell is P; None if absent"""
+        """find the index into segment `rows` whose tagged cell is P; None if absent.
+        Axes of concrete (small) length are enumerated, symbolic axes are solved."""
         ctx = self.ctx
         if rows.ndim == 0:
             tg = self._tag(rows, ())
@@ -170,12 +172,39 @@ class World:
                 if not ctx.eq(a, b):
                     return None
             return ()
-        zs = [self.zsym(s) for s in rows.shape]
+        import itertools
+        conc_axes = []
+        for j, s in enumerate(rows.shape):
+            if s.is_const() and (self.symbolic or True):
+                n = s.as_int()
+                if n > 64 and self.symbolic:
+                    raise AnalysisError("concrete row segment axis too long to enumerate")
+                conc_axes.append((j, n))
+        if not self.symbolic:
+            # fully concrete world: plain enumeration
+            hit = None
+            for cand in itertools.product(*[range(n) for _j, n in conc_axes]):
+                idx = tuple(Rat.const(c) for c in cand)
+                tg = self._tag(rows, idx)
+                if all(ctx.eq(a, b) for a, b in zip(tg, P)):
+                    hit = idx
+            return hit
+        hit = None
+        for cand in itertools.product(*[range(n) for _j, n in conc_axes]):
+            fixed = {j: Rat.const(c) for (j, _n), c in zip(conc_axes, cand)}
+            r = self._solve_row_sym(rows, P, fixed)
+            if r is not None:
+                hit = r
+        return hit
+
+    def _solve_row_sym(self, rows, P, fixed):
+        ctx = self.ctx
+        zs = [fixed[j] if j in fixed else self.zsym(s) for j, s in enumerate(rows.shape)]
         tg = self._tag(rows, tuple(zs))
         if len(tg) != len(P):
             raise AnalysisError(f"row tag arity {len(tg)} vs mesh dimension {len(P)}")
-        zids = {atom_id(_akey(z)): j for j, z in enumerate(zs)}
-        sol = {}
+        zids = {atom_id(_akey(z)): j for j, z in enumerate(zs) if j not in fixed}
+        sol = dict(fixed)
         pending = []
         for comp, target in zip(tg, P):
             p = comp.as_poly()
@@ -203,10 +232,7 @@ class World:
         idx = []
         for j, s in enumerate(rows.shape):
             if j not in sol:
-                if s.is_const() and s.const_value() == 1:
-                    sol[j] = ZERO
-                else:
-                    raise AnalysisError("row segment axis not determined by the cell tag")
+                raise AnalysisError("row segment axis not determined by the cell tag")
             v = sol[j]
             if not (ctx.le(ZERO, v) and ctx.lt(v, s)):
                 return None
@@ -242,15 +268,22 @@ class World:
             scat = [w for w in V.log if w[0][0] == 'cellscatter']
             if scat or (V.cur.label and V.cur.label[0] == 'scattered'):
                 for (kinfo, val, ln) in reversed(V.log):
-                    if kinfo[0] != 'cellscatter':
+                    if kinfo[0] == 'adv' and len(kinfo[1]) == 1:
+                        idxarr = kinfo[1][0]
+                    elif kinfo[0] == 'cellscatter':
+                        idxarr = kinfo[1]
+                    else:
                         raise AnalysisError(f"flat vector written by {kinfo[0]} after a cell scatter")
-                    idxarr = kinfo[1]
                     vsegs = snap(val)
                     vsegs = vsegs.segs if vsegs.segs is not None else [vsegs]
                     rsegs = idxarr.segs if idxarr.segs is not None else [idxarr]
-                    if len(vsegs) != len(rsegs):
+                    if len(vsegs) != len(rsegs) and not (len(vsegs) == 1 and vsegs[0].ndim == 0):
                         raise AnalysisError("scatter: value/index block structure differs")
+                    from .npmodel import _squeeze
+                    if len(vsegs) == 1 and vsegs[0].ndim == 0 and len(rsegs) > 1:
+                        vsegs = vsegs * len(rsegs)
                     for rs, vs in zip(rsegs, vsegs):
+                        rs, vs = _squeeze(rs), _squeeze(vs)
                         if vs.ndim and (vs.ndim != rs.ndim or any(not (x - y).is_zero() for x, y in zip(vs.shape, rs.shape))):
                             raise AbstractRaise('ValueError', 'shape mismatch in scatter assignment')
                         idx = self._solve_row(rs, P)
